@@ -79,6 +79,8 @@ class Agent:
         object.__setattr__(self, "kind", kind)
         object.__setattr__(self, "simulation_id", aid)
         object.__setattr__(self, "realtime", realtime)
+        # (sensor 10 sits on a ground facility, everything else on a spacecraft: whether an agent is imported or propagated is decided by its realtime flag alone)
+        object.__setattr__(self, "agent_type", "ground_facility" if (kind == "S" and aid == 10) else "spacecraft")
 
     def __setattr__(self, k, v):  # any attribute assignment by the code under contract is recorded
         self.log.append(("agent.setattr", self.simulation_id, k))
